@@ -68,6 +68,12 @@ def judge_altdec(E, beta, u):
     b0, s0, g0, u0 = beta.copy(), speed.copy(), gamma.copy(), u.copy()
     alt, ln = eas.altDec(beta, speed, gamma, u)
     out = []
+    # what the previous call on this (shared, long-lived) stage object returned is still what it returned
+    for a, d in _HELD:
+        if a.tobytes() != d:
+            out.append(("results_of_the_previous_call_left_intact", 0, "the arrays as returned", "overwritten by this call"))
+            break
+    _HELD[:] = [(x, x.tobytes()) for x in (alt, ln) if isinstance(x, np.ndarray)]
     alt = np.asarray(alt)
     ln = np.asarray(ln)
     lam = gamma * speed * C_KM * TAU0
@@ -98,6 +104,7 @@ def judge_altdec(E, beta, u):
 
 
 _EAS = None
+_HELD = []
 
 
 def _eas():
@@ -216,6 +223,14 @@ def run(ctx):
             if not (err <= 1.0 / m) or (prev is not None and not err < prev):
                 ctx.violation("mean_decay_length", {"kind": "mean", "E": Eg, "m": m}, f"|mean/lambda-1|<=1/{m} and decreasing", err)
             prev = err
+    # the shared stage object called again and again with batches of ONE shape (what a scan over energies does): every
+    # call judged as above, and what the call before it returned is left as returned
+    for rep, (Eg, bb) in enumerate(((1e6, 0.1), (3e7, 0.3), (1e9, 0.02), (1e6, 0.1))):
+        um = (np.arange(16) + 0.5) / 16
+        v2, _, _ = judge_altdec(np.full(16, Eg), np.full(16, bb), um)
+        ctx.tick(16, ("same_shape_reuse", rep))
+        for c, i, e, o in v2[:3]:
+            ctx.violation(c, {"kind": "reuse", "rep": rep}, e, o)
     # Part B
     fracs = [1e-3, 0.5, 1.0]
     for ver in (1, 2, 3):
@@ -353,6 +368,14 @@ def replay(case):
         else:
             prev = np.inf
         return [] if (err <= 1.0 / m and err < prev) else [("mean_decay_length", f"<=1/{m}", err)]
+    if k == "reuse":
+        out = []
+        _HELD[:] = []
+        for rep, (Eg, bb) in enumerate(((1e6, 0.1), (3e7, 0.3), (1e9, 0.02), (1e6, 0.1))):
+            v2, _, _ = judge_altdec(np.full(16, Eg), np.full(16, bb), (np.arange(16) + 0.5) / 16)
+            if rep == case["rep"]:
+                out = [(c, e, o) for c, i, e, o in v2]
+        return out
     if k == "frac_history":
         return judge_frac_history(case["seq"])
     if k == "forms":
